@@ -17,6 +17,26 @@ K_REPLY = 'c15:handle_ffi_req:result-exceeds-COP_REPLY_BIG_BUF'
 K_STDOUT = 'c15:e2e:extern-writes-stdout'
 
 
+def run_model(ref, lines, timeout=1500):
+    """vlib.run_lines with a 4 GiB stack: the extracted list functions are not tail recursive and the thorough tier feeds
+    multi-megabyte strings"""
+    import subprocess, resource
+
+    def big_stack():
+        try:
+            resource.setrlimit(resource.RLIMIT_STACK, (resource.RLIM_INFINITY, resource.RLIM_INFINITY))
+        except (ValueError, OSError):
+            soft, hard = resource.getrlimit(resource.RLIMIT_STACK)
+            resource.setrlimit(resource.RLIMIT_STACK, (hard, hard))
+    try:
+        r = subprocess.run([ref], input=('\n'.join(lines) + '\n').encode(), capture_output=True, timeout=timeout, preexec_fn=big_stack)
+    except subprocess.TimeoutExpired:
+        raise RuntimeError('%s timed out' % ref)
+    if r.returncode != 0:
+        raise RuntimeError('%s exited %s: %s' % (ref, r.returncode, r.stderr.decode('utf-8', 'replace')[-2000:]))
+    return r.stdout.decode('utf-8', 'replace').splitlines()
+
+
 # ------------------------------------------------------------------------------------------------ values
 def show(v):
     k = v[0]
@@ -208,7 +228,7 @@ def run_codec(ck, ref, probe_asan, probe_plain, C):
         k = min(len(impl), len(lines) - 1)
         ck.fail('c15:crash:' + lines[k][:200], 'cop_probe(asan) died on a non-hostile input (rc=%s): sanitizer report or crash in the real codec' % rc,
                 dict(case='codec', input=lines[k], stderr=e[-3000:], engine='cop_probe(asan)'))
-    model_asan = vlib.run_lines(ref, [model_line(l, ASAN_AMAX) for l in lines], timeout=1500)
+    model_asan = run_model(ref, [model_line(l, ASAN_AMAX) for l in lines], timeout=1500)
     bad = 0
     for l, a, m in zip(lines, impl, model_asan):
         ck.count(('asan', l), nontrivial=not (l.startswith('des') and len(l) <= 8))
@@ -226,7 +246,7 @@ def run_codec(ck, ref, probe_asan, probe_plain, C):
         k = min(len(impl2), len(lines) - 1)
         ck.fail('c15:crash-plain:' + lines[k][:200], 'cop_probe(plain) died on a non-hostile input (rc=%s)' % rc,
                 dict(case='codec', input=lines[k], stderr=e[-2000:], engine='cop_probe(plain)'))
-    model_inf = vlib.run_lines(ref, lines, timeout=1500)
+    model_inf = run_model(ref, lines, timeout=1500)
     alloc_dep = 0
     oob = 0
     for l, a, m1, m2 in zip(lines, impl2, model_inf, model_asan):
@@ -471,7 +491,7 @@ def model_request(ref, argsets):
     """per extern call of the program: does the model's vm_ffi_call_cop request fit?  -> list of 'ok'/'argfail i'"""
     if not argsets:
         return []
-    out = vlib.run_lines(ref, ['req 0 ' + ' '.join(show(a) for a in args) for args in argsets], timeout=120)
+    out = run_model(ref, ['req 0 ' + ' '.join(show(a) for a in args) for args in argsets], timeout=120)
     return [o.split(' ')[0] + (' ' + o.split(' ')[1] if o.startswith('argfail') else '') for o in out]
 
 
@@ -480,7 +500,7 @@ def model_reply_empty(ref, spec):
     if spec is None:
         return False
     v = ('a', spec[1], [('i', i) for i in range(spec[2])])
-    out = vlib.run_lines(ref, ['reply ' + show(v)], timeout=300)
+    out = run_model(ref, ['reply ' + show(v)], timeout=300)
     return out[0] == '-'
 
 
@@ -554,7 +574,12 @@ def run(ck):
     ck.build('asan')
     ck.gen(['gen_cop'])
     C = read_consts()
-    ck.prove()
+    proved = ck.prove()
+    if ck.thorough and proved:
+        rc, o, e = vlib.sh(['coqchk', '-silent', '-o', '-Q', 'NV', 'NV', 'NV.Props.Properties_C15'], cwd=vlib.COQ, timeout=1500)
+        ck.extra['coqchk'] = 'ok' if rc == 0 else 'FAILED rc=%s %s' % (rc, (o + e)[-400:])
+        if rc != 0:
+            ck.proof['broken'].append('coqchk NV.Props.Properties_C15')
     ref = ck.nvref('c15')
     probe_asan = ck.probe('cop_probe.c', 'asan')
     probe_plain = ck.probe('cop_probe.c', 'plain')
@@ -618,7 +643,7 @@ def replay(ck, d):
     probe = ck.probe('cop_probe.c', 'asan' if 'asan' in eng else 'plain')
     env = dict(os.environ, ASAN_OPTIONS='detect_leaks=0:allocator_may_return_null=1:max_allocation_size_mb=%d' % ASAN_MAX_MB)
     rc, o, e = vlib.sh([probe], input=(l + '\n').encode(), env=env, timeout=120)
-    m = vlib.run_lines(ref, [model_line(l, ASAN_AMAX if 'asan' in eng else None)])
+    m = run_model(ref, [model_line(l, ASAN_AMAX if 'asan' in eng else None)])
     print('input:', l[:300]); print('impl :', o.strip()[:300], '(rc=%s)' % rc); print('model:', m[0][:300] if m else None)
     same = rc == 0 and norm_impl(o.strip()) == (m[0] if m else None)
     print('REPRODUCED' if not same else 'not reproduced')
